@@ -25,8 +25,12 @@
    * Every panic of the modelled paths is an explicit [Err]: the two `assert!(total.is_empty())` /
      `unwrap_new_mut` assertions, `panic!("expected Delta")`, `panic!("expected Total")`,
      `panic!("unexpected New")`, Vec indexing `self.total.sets[s]`, `unwrap()` on reverse maps / map entries in
-     the ternary views, the integer division in BinRelToTernaryInd1_2::len_estimate, everything inside
-     TrRelUnionFind (UF/TrUfModel.v), and exhaustion of the fuel of the inner semi-naive loop. *)
+     the ternary views, everything inside TrRelUnionFind (UF/TrUfModel.v), and exhaustion of the fuel of the
+     inner semi-naive loop.
+   The model follows the code after the five repairs of this property's findings (len_estimate `.max(1)`; an empty
+   Total-shaped delta is an empty Delta; is_empty by representation; self connections of the classes created by a
+   merge are part of the delta and Delta::contains / iter_all serve pairs within a class; the delta's reverse maps of
+   the ternary adaptor are rebuilt from the new delta). *)
 From Coq Require Import List Arith Bool ZArith.
 From AV Require Import UF.UfBase.
 From AV Require Import UF.TrUfModel.
@@ -87,16 +91,18 @@ Definition c_insert (c : common) (x y : nat) : res (common * bool) :=
 (* RelIndexMerge::init *)
 Definition c_init (new delta total : common) : common * common * common := (CNew [], delta, total).
 
-(* add_node *)
-Definition add_node (st : truf) (x : nat) : res (truf * nat) :=
-  do (st1, id, _) <- add_node_new st x; Ok (st1, id).
+(* the self connection of a class that this merge created *)
+Definition self_conn (id : nat) (fresh : bool) (cr : mset * mset) : mset * mset :=
+  if fresh then (mins id id (fst cr), mins id id (snd cr)) else cr.
 
-(* for (x, y) in new_rel.iter(): add_node both, record the class pair in new_classes_map / _rev_map *)
+(* for (x, y) in new_rel.iter(): add_node_new both, record the class pair in new_classes_map / _rev_map, and the
+   self connection of every class created here (its reflexive pair is readable from total from now on) *)
 Definition add_nodes_step (acc : truf * mset * mset) (p : nat * nat) : res (truf * mset * mset) :=
   let '(st, ncm, ncrm) := acc in
-  do (st1, xid) <- add_node st (fst p);
-  do (st2, yid) <- add_node st1 (snd p);
-  Ok (st2, mins xid yid ncm, mins yid xid ncrm).
+  do (st1, xid, xn) <- add_node_new st (fst p);
+  do (st2, yid, yn) <- add_node_new st1 (snd p);
+  let cr := self_conn yid yn (self_conn xid xn (mins xid yid ncm, mins yid xid ncrm)) in
+  Ok (st2, fst cr, snd cr).
 
 (* join(target, target_rev, rel1, rel2_rev, can_add): for x, for w in rel2_rev[x], for y in rel1[x] *)
 Definition join_inner (can_add : nat -> nat -> bool) (w : nat) (acc : mset * mset * bool) (y : nat) : mset * mset * bool :=
@@ -135,7 +141,9 @@ Definition loop_fuel (tot : truf) : nat := let n := length (t_sets tot) in S (S 
 Definition c_merge (new delta total : common) : res (common * common * common) :=
   do (delta1, total1) <-
     match delta with
-    | CTotal _ => if common_is_empty total then Ok (CDelta d_default, delta) else Err AssertFail   (* :160 *)
+    | CTotal dt =>
+      if tr_is_empty dt then Ok (CDelta d_default, total)               (* a default value: nothing to move into total *)
+      else if common_is_empty total then Ok (CDelta d_default, delta) else Err AssertFail
     | _ => Ok (delta, total)
     end;
   do drel <- match delta1 with CDelta d => Ok d | _ => Err AssertFail end;       (* panic!("expected Delta") *)
@@ -183,7 +191,6 @@ Definition d_contains (d : trdelta) (x y : nat) : res bool :=
     match sy with
     | None => Ok false
     | Some ys =>
-      if Nat.eqb xs ys then Ok false else
       match aget xs (d_conn d) with
       | None => Ok false
       | Some c => Ok (smem ys c)
@@ -195,7 +202,7 @@ Definition d_contains (d : trdelta) (x y : nat) : res bool :=
 Definition d_iter_all (d : trdelta) : res (list (nat * nat)) :=
   do ls <- mapM (fun kv =>
       do xs <- set_at (d_total d) (fst kv);
-      do ys <- sets_of (d_total d) (filter (fun s => negb (Nat.eqb s (fst kv))) (snd kv));
+      do ys <- sets_of (d_total d) (snd kv);
       Ok (list_prod xs ys)) (d_conn d);
   Ok (concat ls).
 
@@ -230,8 +237,9 @@ Definition c_ind_get (rev : bool) (c : common) (x : nat) : res (option (list nat
   | CNew _ => Err AssertFail
   end.
 
-(* ByodsBinRel::is_empty (trait default; the one the generic adaptors see) *)
-Definition c_trait_is_empty (c : common) : res bool := do l <- c_iter_all c; Ok (isnil l).
+(* ByodsBinRel::is_empty (the one the generic adaptors and the index views see): by representation *)
+Definition c_trait_is_empty (c : common) : res bool :=
+  Ok (match c with CNew r => isnil r | CDelta d => isnil (d_prec d) | CTotal t => tr_is_empty t end).
 
 (* ------------------------------------------------------------------ observation of one binary version
    one entry per view, in the order of the harness:
@@ -318,20 +326,28 @@ Definition tmerge_new_step (acc : list (nat * common) * list (nat * common))
     Ok (totm, aset k d1 ndm)
   end.
 
+(* for (k, rel) in delta.map.iter() { for (x, _) in rel.ind0_iter_all() (ind1_iter_all) { rm.entry(x).or_default().insert(k) } } *)
+Definition rebuild_rev (rev : bool) (m : list (nat * common)) : res mset :=
+  foldM (fun rm kc => do l <- c_ind_iter_all rev (snd kc);
+                      Ok (fold_left (fun rm xv => mins (fst xv) (fst kc) rm) l rm)) m [].
+
 Definition t_merge (new delta total : tern) : res (tern * tern * tern) :=
   do (newm1, totm1, ndm1) <- foldM tmerge_delta_step (tm delta) (tm new, tm total, []);
   do (totm2, ndm2) <- foldM tmerge_new_step newm1 (totm1, ndm1);
-  (* reverse maps: delta's contents go to total, then delta and new swap *)
+  (* reverse maps: the old delta's contents go to total; the delta's are rebuilt from the new delta map (every key's
+     ind0_iter_all / ind1_iter_all keys); new's are cleared *)
   do (r1n, r1d, r1t) <-
     match rm1 delta with
-    | Some d1 => do t1 <- of_opt UnwrapNone (rm1 total); do n1 <- of_opt UnwrapNone (rm1 new);
-                 Ok (Some ([] : mset), Some n1, Some (munion d1 t1))
+    | Some d1 => do t1 <- of_opt UnwrapNone (rm1 total); do _ <- of_opt UnwrapNone (rm1 new);
+                 do d1' <- rebuild_rev false ndm2;
+                 Ok (Some ([] : mset), Some d1', Some (munion d1 t1))
     | None => Ok (rm1 new, None, rm1 total)
     end;
   do (r2n, r2d, r2t) <-
     match rm2 delta with
-    | Some d2 => do t2 <- of_opt UnwrapNone (rm2 total); do n2 <- of_opt UnwrapNone (rm2 new);
-                 Ok (Some ([] : mset), Some n2, Some (munion d2 t2))
+    | Some d2 => do t2 <- of_opt UnwrapNone (rm2 total); do _ <- of_opt UnwrapNone (rm2 new);
+                 do d2' <- rebuild_rev true ndm2;
+                 Ok (Some ([] : mset), Some d2', Some (munion d2 t2))
     | None => Ok (rm2 new, None, rm2 total)
     end;
   Ok (mkT [] r1n r2n, mkT ndm2 r1d r2d, mkT totm2 r1t r2t).
@@ -399,12 +415,12 @@ Definition t_i12_all (t : tern) : res (list (nat * nat * list nat)) :=
   do m2 <- of_opt UnwrapNone (rm2 t);
   do ls <- mapM (fun a => mapM (fun b => do l <- t_i12_keys t (fst a) (fst b) (snd a) (snd b); Ok (fst a, fst b, l)) m2) m1;
   Ok (concat ls).
-(* Ind1_2::len_estimate: rm1.len() * rm2.len() / ((map.len() as f32).sqrt() as usize) *)
+(* Ind1_2::len_estimate: rm1.len() * rm2.len() / ((map.len() as f32).sqrt() as usize).max(1) *)
 Definition t_i12_len_estimate (t : tern) : res nat :=
   do m1 <- of_opt UnwrapNone (rm1 t);
   do m2 <- of_opt UnwrapNone (rm2 t);
-  let q := Nat.sqrt (length (tm t)) in
-  if Nat.eqb q 0 then Err AssertFail else Ok (length m1 * length m2 / q).
+  let q := Nat.max (Nat.sqrt (length (tm t))) 1 in
+  Ok (length m1 * length m2 / q).
 
 (* Ind0_1_2::contains_key / index_get *)
 Definition t_contains (t : tern) (k x y : nat) : res bool :=
